@@ -75,7 +75,7 @@ def build_items(spec, rng_choice=None, helpers=False):
     items = []
     for s in spec:
         k = s['k']
-        if helpers:
+        if helpers and not s.get('tagging'):
             if k == 'raw':
                 items.append(HP.metadata_item(bytes.fromhex(s['c']), mime(s['m'], s.get('enum'))))
                 continue
@@ -94,7 +94,14 @@ def build_items(spec, rng_choice=None, helpers=False):
             if k == 'bearer' and text(s['t']) is not None:
                 items.append(HP.authenticate_bearer(text(s['t'])))
                 continue
-        if k == 'raw':
+        if k in ('raw', 'route') and s.get('tagging'):
+            # the same entry built as a TaggingMetadata (the base class of RoutingMetadata), its MIME type given as bytes, as a
+            # WellKnownMimeType value or as the enum member (the way the library's own tests name the routing type)
+            from rsocket.extensions.tagging import TaggingMetadata
+            name = bytes.fromhex(s['m']) if k == 'raw' else b'message/x.rsocket.routing.v0'
+            rep = {'bytes': name, 'value': by_name[name].value if name in by_name else name, 'enum': by_name.get(name, name)}[s['tagging']]
+            items.append(TaggingMetadata(rep, [bytes.fromhex(t) for t in s['tags']]))
+        elif k == 'raw':
             items.append(CompositeMetadataItem(mime(s['m'], s.get('enum')), bytes.fromhex(s['c'])))
         elif k == 'route':
             items.append(RoutingMetadata([bytes.fromhex(t) for t in s['tags']]))
@@ -154,7 +161,7 @@ class C18(Prop):
                   'entry < 2^24 are part of the limits (the code truncates silently beyond).')
     design_ref = '§5 C18'
     rule = ('lists of 0..6 entries of all six kinds, MIME names well-known (every table row is used, as enum and as bytes), near misses of well-known names (other case, white space, one character off) or custom at lengths 1,2,127,128 and out-of-limit '
-            '0,129,200; tags at 0,1,254,255 and out-of-limit 256,300; credentials 0..70 bytes and at the byte boundaries of their length fields (user names of 255..65535 bytes, tokens and item contents of 255..70000 bytes); a third of the lists built through rsocket/extensions/helpers.py; batches re-run in a sub-process with cbitstruct blocked (struct fallbacks of frame_helpers.py); plus truncations / bit flips / random bytes of valid composites; '
+            '0,129,200; tags at 0,1,254,255 and out-of-limit 256,300; credentials 0..70 bytes and at the byte boundaries of their length fields (user names of 255..65535 bytes, tokens and item contents of 255..70000 bytes); a third of the lists built through rsocket/extensions/helpers.py; routing entries and tag lists under other MIME types also built as TaggingMetadata with the type given as bytes, as a WellKnownMimeType value or as the enum member; batches re-run in a sub-process with cbitstruct blocked (struct fallbacks of frame_helpers.py); plus truncations / bit flips / random bytes of valid composites; '
             'non-trivial = at least two entries or a boundary length; distinct = distinct entry list / blob')
     assumptions = ['entries are built through the repo classes; a str-typed encoding is not generated (bytes and enum values are)']
 
@@ -208,9 +215,15 @@ class C18(Prop):
                                                b'message/x.rsocket.accept-mime-types.v0', b'message/x.rsocket.authentication.v0'):
                         m = self._mime(rng, table, bad)
                     items.append({'k': 'raw', 'm': m, 'c': bytes(rng.getrandbits(8) for _ in range(rng.choice([0, 1, 5, 300]))).hex(), 'enum': en})
+                    if rng.random() < 0.15:
+                        # a tag list under this MIME type: on the wire an ordinary entry whose content is the length-prefixed tags
+                        tags = [bytes(rng.getrandbits(8) for _ in range(rng.choice([1, 5, 255]))) for _ in range(rng.choice([1, 2, 3]))]
+                        items[-1].update(tags=[t.hex() for t in tags], c=b''.join(bytes([len(t)]) + t for t in tags).hex(), tagging=rng.choice(['bytes', 'value', 'enum']))
                 elif k == 'route':
                     lens = [0, 1, 5, 254, 255] + ([256, 300] if bad else [])
                     items.append({'k': 'route', 'tags': [bytes(rng.getrandbits(8) for _ in range(rng.choice(lens))).hex() for _ in range(rng.choice([0, 1, 1, 2, 4]))]})
+                    if rng.random() < 0.25:
+                        items[-1]['tagging'] = rng.choice(['bytes', 'value', 'enum'])
                 elif k == 'mime':
                     items.append({'k': 'mime', 'm': self._mime(rng, table, bad), 'enum': en})
                 elif k == 'accept':
